@@ -256,7 +256,12 @@ func Gen(t *rapid.T, o GenOpts) Script {
 	sc := Script{Channels: genChannels(t, o)}
 	sc.FileCap = rapid.SampledFrom([]int{16, 32, 64, 100, 256, 1024, 0}).Draw(t, "file_cap")
 	if o.GC {
-		sc.GCThreshold = rapid.SampledFrom([]float32{0.0001, 0.2, 1.0}).Draw(t, "gc_threshold")
+		// garbage collection only rewrites a file once its tombstones reach threshold x
+		// file size, and only files that hold several domains (possibly written out of
+		// time order) exercise the offset remapping: prefer caps that keep many domains
+		// in one file, never the 1 GB default (its threshold is never reached)
+		sc.FileCap = rapid.SampledFrom([]int{32, 100, 256, 1024, 1024, 4096, 4096}).Draw(t, "file_cap_gc")
+		sc.GCThreshold = rapid.SampledFrom([]float32{0.0001, 0.0001, 0.2, 1.0}).Draw(t, "gc_threshold")
 	}
 	st := NewState(sc.Channels)
 	nops := rapid.IntRange(max(3, o.MinOps), o.MaxOps).Draw(t, "nops")
